@@ -19,8 +19,8 @@ add("C18", "checks/c18_errquery.c", ["default-asan", "heap-asan", "default-plain
     level_note="trusted: the 30-line response reader and the prefix/limit computation in checks/c18_errquery.c, LIST_OF_ERRORS in scpi/error.h as the table of descriptions, the sanitizer runtimes. "
                "Not asserted (statement silent, counted only): number of flushes, whether an empty but non-NULL text yields `description` or `description;` "
                "(malloc build emits the ';', static-heap build does not), prefix/cut rules for texts with 8-bit bytes (they held on all executed cases). "
-               "In the heap configuration all phases but `exactsrc` append one readable byte after explicit-length texts so that the one-byte over-read of scpiheap_strndup "
-               "(reported under asan:heap-buffer-overflow:scpiheap_strndup) does not abort every case of that build",
+               "In the heap configuration all phases but `exactsrc` append one readable byte after explicit-length texts so that a one-byte over-read of scpiheap_strndup "
+               "(found by this check, key asan:heap-buffer-overflow:scpiheap_strndup, repaired by repo commit 4fb12fa) is attributed to that phase instead of aborting every case of the build",
     assumptions=["response reader and expected-prefix computation in checks/c18_errquery.c are correct",
                  "LIST_OF_ERRORS in scpi/error.h is the authoritative code->description table; codes outside it share one non-empty fallback description",
                  "info heap of 1024 bytes and queue of 8 entries are large enough that every pushed text is stored (storage refusal is C20's subject)",
